@@ -43,6 +43,10 @@ func validateBoundaryObjects(schema *ast.Schema) error {
 		return err
 	}
 
+	if schema.Query == nil {
+		return fmt.Errorf("the schema is missing a Query type")
+	}
+
 	if usesFieldsBoundaryDirective(schema) {
 		if err := validateBoundaryQueries(schema); err != nil {
 			return err
